@@ -83,7 +83,7 @@ def run(rep, tier):
         if not npaths:
             npaths = sum(v.get("paths", 0) for v in stats.values() if isinstance(v, dict))
         rep.programs += npaths
-        rep.obligation(name, "rsx+z3", "holds" if not findings else "violated", time.time() - t0, detail=dict(stats=stats, findings=sorted(findings)),
+        rep.obligation(name, "rsx+z3", "holds" if not findings else ("known" if all(rep.known.lookup(rep.prop, k_) for k_ in findings) else "violated"), time.time() - t0, detail=dict(stats=stats, findings=sorted(findings)),
                        queries=max(1, npaths), states=npaths)
     # ---- native: probes (confirmation) and history family (validation) ------------------------------------------------------------
     t0 = time.time()
